@@ -15,22 +15,20 @@ structure BasicPost (cfg : Cfg) (s s' : State) : Prop where
   inv : GeomInv cfg s'
   resps : RespsOK cfg s'
   minAlign : s'.minAlign = s.minAlign
+  trace : Trace s s'
 
 section
 variable {cfg : Cfg}
 
-theorem BasicPost.refl {s : State} (h : GeomInv cfg s) (hr : RespsOK cfg s) : BasicPost cfg s s := ⟨h, hr, rfl⟩
-
-theorem BasicPost.trans {a b c : State} (h1 : BasicPost cfg a b) (h2 : BasicPost cfg b c) : BasicPost cfg a c :=
-  ⟨h2.inv, h2.resps, h2.minAlign.trans h1.minAlign⟩
+theorem BasicPost.refl {s : State} (h : GeomInv cfg s) (hr : RespsOK cfg s) : BasicPost cfg s s := ⟨h, hr, rfl, Trace.refl _⟩
 
 theorem SlowPost.basic {α : Type} {L : Layout} {s s' : State} {r : Except AErr α} (p : SlowPost cfg L s s' r) :
-    BasicPost cfg s s' := ⟨p.inv, p.resps, p.minAlign⟩
+    BasicPost cfg s s' := ⟨p.inv, p.resps, p.minAlign, p.trace⟩
 
 theorem BasicPost.copy {s s1 s2 : State} (p : BasicPost cfg s s1) {src dst len : Nat} {no : Bool}
     (he : copyBytes cfg s1 src dst len no = .ok s2) : BasicPost cfg s s2 := by
   have hg := copyBytes_geom he
-  exact ⟨hg.inv p.inv, hg.respsOK p.resps, hg.minAlign.trans p.minAlign⟩
+  exact ⟨hg.inv p.inv, hg.respsOK p.resps, hg.minAlign.trans p.minAlign, p.trace.post hg.shape hg.resps⟩
 
 /-- the `moveTo` continuation of `grow` -/
 theorem moveTo_post {s s1 s' : State} {ptr oldSize : Nat} {r1 r : Except AErr Nat} (p : BasicPost cfg s s1)
@@ -128,7 +126,8 @@ theorem grow_post (hc : CfgOK cfg) {s : State} (h : GeomInv cfg s) (hr : RespsOK
               have hup2 : Spec.upAlign (ptr + newL.size) s.minAlign ≤ c.contentEnd cfg :=
                 upAlign_le_of_dvd hm.pos (hm.dvd_of_16 h16) (by omega)
               exact ⟨h.setCurPos hcur hi (by omega) hup2 (upAlign_dvd _ _),
-                fun x hx => hr x (by rw [setCurPos_resps] at hx; exact hx), setCurPos_minAlign _ _⟩
+                fun x hx => hr x (by rw [setCurPos_resps] at hx; exact hx), setCurPos_minAlign _ _,
+                Trace.of_shape (setCurPos_shape _ _) (setCurPos_resps _ _)⟩
             · cases h2'
           · cases h1'
         · exact hslow he
@@ -167,8 +166,8 @@ theorem grow_post (hc : CfgOK cfg) {s : State} (h : GeomInv cfg s) (hr : RespsOK
             rw [rs_max_eq]
             exact Nat.dvd_trans (dvd_max_right hL.p2 hm.p2) (downAlign_dvd _ _)
           have hg := copyBytes_geom h4
-          obtain ⟨g1, _, g3, g4, _⟩ := hg.setCurPos_inv h hcur hi hge (by omega) hdvd
-          exact ⟨g1, fun x hx => hr x (by rw [g4] at hx; exact hx), g3⟩
+          obtain ⟨g1, g2', g3, g4, _⟩ := hg.setCurPos_inv h hcur hi hge (by omega) hdvd
+          exact ⟨g1, fun x hx => hr x (by rw [g4] at hx; exact hx), g3, Trace.of_shape g2' g4⟩
         · exact hslow he
     · exact halloc he
 
@@ -290,7 +289,8 @@ theorem shrink_post (hc : CfgOK cfg) {s : State} (h : GeomInv cfg s) (hr : Resps
         obtain ⟨s3, h3, he⟩ := bind_eq_ok he
         cases he
         obtain ⟨g1, g2, g3, g4, g5, g6⟩ := tryCurSpec_inv hc d2 hL ht
-        have p2 : BasicPost cfg s s2 := ⟨g1, fun x hx => hr1 x (by rw [g5] at hx; exact hx), g4.trans d5⟩
+        have p2 : BasicPost cfg s s2 := ⟨g1, fun x hx => hr1 x (by rw [g5] at hx; exact hx), g4.trans d5,
+          Trace.of_shape (d3.trans g2) (g5.trans d6)⟩
         exact p2.copy h3
       | none =>
         rw [ht] at he
@@ -308,7 +308,8 @@ theorem shrink_post (hc : CfgOK cfg) {s : State} (h : GeomInv cfg s) (hr : Resps
           fun x hx => hr1 x (by rw [setCurPos_resps] at hx; exact hx)
         obtain ⟨⟨s3, r3⟩, h3, he⟩ := bind_eq_ok he
         have p3 := ((inAnotherChunk_ok hc hinv2 hr2 .alloc hL hcu (fun hx => by cases hx)).1 s3 r3 h3).basic
-        have p3' : BasicPost cfg s s3 := ⟨p3.inv, p3.resps, p3.minAlign.trans ((setCurPos_minAlign _ _).trans d5)⟩
+        have p3' : BasicPost cfg s s3 := ⟨p3.inv, p3.resps, p3.minAlign.trans ((setCurPos_minAlign _ _).trans d5),
+          p3.trace.pre (d3.trans (setCurPos_shape _ _)) ((setCurPos_resps _ _).trans d6)⟩
         simp only at he
         cases r3 with
         | error e => cases he; exact p3'
@@ -347,7 +348,7 @@ theorem shrink_post (hc : CfgOK cfg) {s : State} (h : GeomInv cfg s) (hr : Resps
         cases he
         obtain ⟨g1, g2, g3⟩ := shrink_up_core hc h hcur hi hb1 (by omega) (liftM_eq_ok h1) (liftM_eq_ok h2)
         exact ⟨h.setCurPos hcur hi g1 g2 g3, fun x hx => hr x (by rw [setCurPos_resps] at hx; exact hx),
-          setCurPos_minAlign _ _⟩
+          setCurPos_minAlign _ _, Trace.of_shape (setCurPos_shape _ _) (setCurPos_resps _ _)⟩
       · rename_i hup
         simp only [hup, Bool.false_eq_true, ↓reduceIte] at hpos hb3
         obtain ⟨oldEnd, h1, he⟩ := bind_eq_ok he
@@ -359,8 +360,8 @@ theorem shrink_post (hc : CfgOK cfg) {s : State} (h : GeomInv cfg s) (hr : Resps
         obtain ⟨g1, g2, g3⟩ := shrink_down_core hc h hcur hi hL.p2 hL.lt64 (alignFits_dvd hfit') hpos hb2 hsz
           (liftM_eq_ok h1) (liftM_eq_ok h2)
         have hg := copyBytes_geom h3
-        obtain ⟨q1, _, q3, q4, _⟩ := hg.setCurPos_inv h hcur hi g1 g2 g3
-        exact ⟨q1, fun x hx => hr x (by rw [q4] at hx; exact hx), q3⟩
+        obtain ⟨q1, q2', q3, q4, _⟩ := hg.setCurPos_inv h hcur hi g1 g2 g3
+        exact ⟨q1, fun x hx => hr x (by rw [q4] at hx; exact hx), q3, Trace.of_shape q2' q4⟩
 
 theorem shrinkWithoutShrink_post (hc : CfgOK cfg) {s : State} (h : GeomInv cfg s) (hr : RespsOK cfg s) {ptr oldSize : Nat}
     {newL : Layout} (hL : newL.Valid)
@@ -404,7 +405,7 @@ theorem shrinkSlice_post (hc : CfgOK cfg) {s : State} (h : GeomInv cfg s) (hr : 
         cases he
         obtain ⟨g1, g2, g3⟩ := shrink_up_core hc h hcur hi hb1 (by omega) (liftM_eq_ok h1) (liftM_eq_ok h2)
         exact ⟨h.setCurPos hcur hi g1 g2 g3, fun x hx => hr x (by rw [setCurPos_resps] at hx; exact hx),
-          setCurPos_minAlign _ _⟩
+          setCurPos_minAlign _ _, Trace.of_shape (setCurPos_shape _ _) (setCurPos_resps _ _)⟩
       · rename_i hup
         simp only [hup, Bool.false_eq_true, ↓reduceIte] at hpos hb3
         obtain ⟨oldEnd, h1, he⟩ := bind_eq_ok he
@@ -414,8 +415,8 @@ theorem shrinkSlice_post (hc : CfgOK cfg) {s : State} (h : GeomInv cfg s) (hr : 
         obtain ⟨g1, g2, g3⟩ := shrink_down_core hc h hcur hi hal hal64 hap hpos hb2 hsz
           (liftM_eq_ok h1) (liftM_eq_ok h2)
         have hg := copyBytes_geom h3
-        obtain ⟨q1, _, q3, q4, _⟩ := hg.setCurPos_inv h hcur hi g1 g2 g3
-        exact ⟨q1, fun x hx => hr x (by rw [q4] at hx; exact hx), q3⟩
+        obtain ⟨q1, q2', q3, q4, _⟩ := hg.setCurPos_inv h hcur hi g1 g2 g3
+        exact ⟨q1, fun x hx => hr x (by rw [q4] at hx; exact hx), q3, Trace.of_shape q2' q4⟩
 
 end
 end Arena
